@@ -21,6 +21,7 @@ VARIABLES
   eid,      \* logged element name |-> element id of the specification
   held,     \* goroutine |-> bytes it has reserved and not yet given back
   depth,    \* goroutine |-> number of requests it is inside
+  rq,       \* goroutine |-> names of the requests it is inside, innermost last
   files,    \* relative path |-> [state, owner]   (only in traces with file events)
   q,        \* entries handed to the remover and not yet unlinked, oldest first (from Queue events)
   pendq,    \* entries handed over during the index operation in progress
@@ -30,7 +31,7 @@ VARIABLES
   cnt,      \* byte counters of the removal backlog: [a, s, d, dprev, pend]
   track     \* TRUE iff this trace carries file/request events (a diskCache, not a bare SizedLRU)
 
-vars == <<l, L, eid, held, depth, files, q, pendq, evcur, cnt, track, lost, fname>>
+vars == <<l, L, eid, held, depth, rq, files, q, pendq, evcur, cnt, track, lost, fname>>
 
 Ev == Trace[l]
 
@@ -89,14 +90,26 @@ Clr(LL) == [LL EXCEPT !.evq = <<>>]
 -----------------------------------------------------------------------------
 IsEvent(e) == l <= Len(Trace) /\ Ev.ev = e /\ l' = l + 1
 
+\* the request a goroutine is executing (innermost), "" outside any request (start-up scan, bare index)
+RqOf(g) == IF g \in DOMAIN rq THEN rq[g] ELSE <<>>
+InReq(g) == IF RqOf(g) = <<>> THEN "" ELSE RqOf(g)[Len(RqOf(g))]
+\* which index operations a request may perform (Cache.tla: Put = Reserve, Unreserve, Add;
+\* Contains / FindMissing = lookups only; Get = lookup, drop of a broken entry, and the fetch from the backend)
+MayDo(g, what) ==
+  CASE InReq(g) = "Put"         -> what \in {"Reserve", "Unreserve", "Add"}
+    [] InReq(g) = "Contains"    -> what \in {"Get"}
+    [] InReq(g) = "FindMissing" -> what \in {"Get"}
+    [] OTHER -> TRUE
+
 TraceReset ==
   /\ IsEvent("Reset")
   /\ L' = NewLru(Ev.max, Ev.hl)
-  /\ eid' = <<>> /\ held' = <<>> /\ depth' = <<>> /\ files' = <<>>
+  /\ eid' = <<>> /\ held' = <<>> /\ depth' = <<>> /\ rq' = <<>> /\ files' = <<>>
   /\ evcur' = <<>> /\ q' = <<>> /\ pendq' = <<>> /\ cnt' = Cnt0 /\ track' = Ev.track /\ lost' = {} /\ fname' = <<>>
 
 TraceAdd ==
   /\ IsEvent("Add")
+  /\ Chk(MayDo(Ev.g, "Add"), "C05:requestAddsEntry")
   /\ LET r == AddItem(Cfg(L), Ev.key, Item)
          g == Ev.g
          fn == FileName(MkEntry(Ev.key, Item))
@@ -114,10 +127,11 @@ TraceAdd ==
                 ELSE files' = Set(files, fn, [state |-> "complete", owner |-> ""])
            ELSE files' = files
         /\ fname' = IF r.ok /\ track /\ Ev.key \in DOMAIN r.L.cmap THEN Set(fname, r.L.cmap[Ev.key], fn) ELSE fname
-        /\ UNCHANGED <<held, depth, q, evcur, track, lost>>
+        /\ UNCHANGED <<held, depth, rq, q, evcur, track, lost>>
 
 TraceGet ==
   /\ IsEvent("Get")
+  /\ Chk(MayDo(Ev.g, "Get"), "C05:requestCountsAsUse")      \* e.g. an upload must not refresh the recency of what it replaces
   /\ LET r == GetItem(Cfg(L), Ev.key) IN
         /\ Chk(r.hit = Ev.ok, "C07:lookupResult")
         /\ Scalars(r.L)
@@ -127,7 +141,7 @@ TraceGet ==
                        Chk(ent.lsz = Ev.size /\ ent.dsz = Ev.dsz /\ ent.rnd = Ev.rnd /\ ent.legacy = Ev.legacy,
                            "C07:lookupValue")
         /\ L' = Clr(r.L) /\ OpEnd(r.L)
-  /\ UNCHANGED <<eid, held, depth, files, q, evcur, track, lost, fname>>
+  /\ UNCHANGED <<eid, held, depth, rq, files, q, evcur, track, lost, fname>>
 
 TraceReserve ==
   /\ IsEvent("Reserve")
@@ -147,7 +161,7 @@ TraceReserve ==
         /\ Scalars(r.L) /\ Victims(r.L)
         /\ L' = Clr(r.L) /\ OpEnd(r.L)
         /\ held' = IF r.code = 0 /\ Ev.size > 0 THEN Set0(held, g, Get0(held, g) + Ev.size) ELSE held
-  /\ UNCHANGED <<eid, depth, files, q, evcur, track, lost, fname>>
+  /\ UNCHANGED <<eid, depth, rq, files, q, evcur, track, lost, fname>>
 
 TraceUnreserve ==
   /\ IsEvent("Unreserve")
@@ -158,11 +172,12 @@ TraceUnreserve ==
         /\ Scalars(r.L)
         /\ L' = Clr(r.L) /\ OpEnd(r.L)
         /\ held' = IF r.ok /\ Ev.size > 0 THEN Set0(held, g, Get0(held, g) - Ev.size) ELSE held
-  /\ UNCHANGED <<eid, depth, files, q, evcur, track, lost, fname>>
+  /\ UNCHANGED <<eid, depth, rq, files, q, evcur, track, lost, fname>>
 
 \* RemoveElement / RemoveKey from outside the index (a reader dropping a broken entry)
 TraceRemove ==
   /\ IsEvent("Remove")
+  /\ Chk(MayDo(Ev.g, "Remove"), "C05:requestRemovesEntry")
   /\ LET LL == Cfg(L) IN
      \/ /\ Ev.victims = <<>>
         /\ Chk(Ev.key \notin DOMAIN LL.cmap, "C07:removeKeyMissed")
@@ -176,7 +191,7 @@ TraceRemove ==
            /\ Chk(e \in Range(LL.ll), "C07:staleElementRemoved")
            /\ Scalars(r) /\ L' = Clr(r) /\ OpEnd(r)
      \/ /\ Len(Ev.victims) > 1 /\ Chk(FALSE, "C07:removeManyVictims") /\ L' = L /\ UNCHANGED <<pendq, cnt>>
-  /\ UNCHANGED <<eid, held, depth, files, q, evcur, track, lost, fname>>
+  /\ UNCHANGED <<eid, held, depth, rq, files, q, evcur, track, lost, fname>>
 
 \* an entry is handed to the background remover (under the lock, mid-operation)
 TraceQueue ==
@@ -185,7 +200,7 @@ TraceQueue ==
      /\ q' = Append(q, ent)
      /\ pendq' = Append(pendq, ent)
      /\ cnt' = [cnt EXCEPT !.a = @ + Ev.dsz, !.pend = @ + Ev.dsz]
-  /\ UNCHANGED <<L, eid, held, depth, files, evcur, track, lost, fname>>
+  /\ UNCHANGED <<L, eid, held, depth, rq, files, evcur, track, lost, fname>>
 
 \* the background remover: unlink, then subtract from the backlog counter
 TraceEvictStart ==
@@ -197,14 +212,14 @@ TraceEvictStart ==
   /\ evcur' = <<Head(q)>>
   /\ q' = Tail(q)
   /\ cnt' = [cnt EXCEPT !.s = @ + Ev.dsz]
-  /\ UNCHANGED <<L, eid, held, depth, files, pendq, track, lost, fname>>
+  /\ UNCHANGED <<L, eid, held, depth, rq, files, pendq, track, lost, fname>>
 
 TraceEvictDone ==
   /\ IsEvent("EvictDone")
   /\ Chk(evcur # <<>> /\ evcur[1].key = Ev.key /\ evcur[1].rnd = Ev.rnd, "C04:removalDone")
   /\ evcur' = <<>>
   /\ cnt' = [cnt EXCEPT !.d = @ + Ev.dsz]
-  /\ UNCHANGED <<L, eid, held, depth, files, q, pendq, track, lost, fname>>
+  /\ UNCHANGED <<L, eid, held, depth, rq, files, q, pendq, track, lost, fname>>
 
 IndexedNames == {fname[L.ll[i]] : i \in DOMAIN L.ll}
 QueuedNames  == {FileName(q[i]) : i \in DOMAIN q} \cup {FileName(evcur[i]) : i \in DOMAIN evcur}
@@ -216,20 +231,20 @@ TraceFileCreate ==
   /\ IsEvent("FileCreate")
   /\ Chk(Ev.path \notin DOMAIN files, "C04:fileCreatedTwice")
   /\ files' = Set(files, Ev.path, [state |-> "created", owner |-> Ev.g])
-  /\ UNCHANGED <<L, eid, held, depth, q, pendq, evcur, cnt, track, lost, fname>>
+  /\ UNCHANGED <<L, eid, held, depth, rq, q, pendq, evcur, cnt, track, lost, fname>>
 
 TraceFileComplete ==
   /\ IsEvent("FileComplete")
   /\ Chk(Ev.path \in DOMAIN files /\ files[Ev.path].owner = Ev.g, "C04:completeUnknownFile")
   /\ files' = [files EXCEPT ![Ev.path].state = "complete"]
-  /\ UNCHANGED <<L, eid, held, depth, q, pendq, evcur, cnt, track, lost, fname>>
+  /\ UNCHANGED <<L, eid, held, depth, rq, q, pendq, evcur, cnt, track, lost, fname>>
 
 TraceFileRemove ==
   /\ IsEvent("FileRemove")
   \* never unlink the file of an entry that is still indexed
   /\ Chk(Ev.path \in IndexedNames => Ev.path \in PendNames, "C04:indexedFileRemoved")
   /\ files' = [p \in (DOMAIN files) \ {Ev.path} |-> files[p]]
-  /\ UNCHANGED <<L, eid, held, depth, q, pendq, evcur, cnt, track, lost, fname>>
+  /\ UNCHANGED <<L, eid, held, depth, rq, q, pendq, evcur, cnt, track, lost, fname>>
 
 \* the driver removes a file behind the cache's back (a lost file, as after a
 \* crash or an operator's mistake); readers must drop the entry cleanly
@@ -237,11 +252,12 @@ TraceFileLost ==
   /\ IsEvent("FileLost")
   /\ files' = [p \in (DOMAIN files) \ {Ev.path} |-> files[p]]
   /\ lost' = lost \cup {Ev.path}
-  /\ UNCHANGED <<L, eid, held, depth, q, pendq, evcur, cnt, track, fname>>
+  /\ UNCHANGED <<L, eid, held, depth, rq, q, pendq, evcur, cnt, track, fname>>
 
 TraceReqBegin ==
   /\ IsEvent("ReqBegin")
   /\ depth' = Set(depth, Ev.g, Get0(depth, Ev.g) + 1)
+  /\ rq' = Set(rq, Ev.g, Append(RqOf(Ev.g), Ev.op))
   /\ UNCHANGED <<L, eid, held, files, q, pendq, evcur, cnt, track, lost, fname>>
 
 \* a request that has ended holds no reservation and no unindexed file
@@ -250,6 +266,7 @@ TraceReqEnd ==
   /\ LET g == Ev.g  d == Get0(depth, g) - 1 IN
      /\ Chk(d >= 0, "C14:requestEndWithoutBegin")
      /\ depth' = Set0(depth, g, d)
+     /\ rq' = Set(rq, g, IF RqOf(g) = <<>> THEN <<>> ELSE SubSeq(RqOf(g), 1, Len(RqOf(g)) - 1))
      /\ d = 0 => /\ Chk(Get0(held, g) = 0, "C03:reservationLeaked")
                  /\ Chk(\A p \in DOMAIN files : files[p].owner = g => p \in IndexedNames \cup QueuedNames,
                         "C04:temporaryFileLeaked")
@@ -277,14 +294,14 @@ TraceSnapshot ==
                         => L.elems[L.ll[j]].dsz = Ev.dir[i].size,
                    "C04:fileSize")
             /\ Chk(DOMAIN files = IndexedNames \ lost, "C04:trackedFilesEqualIndex")
-  /\ UNCHANGED <<L, eid, held, depth, files, q, pendq, evcur, cnt, track, lost, fname>>
+  /\ UNCHANGED <<L, eid, held, depth, rq, files, q, pendq, evcur, cnt, track, lost, fname>>
 
 TraceNote ==
   /\ IsEvent("Note")
-  /\ UNCHANGED <<L, eid, held, depth, files, q, pendq, evcur, cnt, track, lost, fname>>
+  /\ UNCHANGED <<L, eid, held, depth, rq, files, q, pendq, evcur, cnt, track, lost, fname>>
 
 TraceInit ==
-  /\ l = 1 /\ L = NewLru(0, 0) /\ eid = <<>> /\ held = <<>> /\ depth = <<>> /\ files = <<>>
+  /\ l = 1 /\ L = NewLru(0, 0) /\ eid = <<>> /\ held = <<>> /\ depth = <<>> /\ rq = <<>> /\ files = <<>>
   /\ evcur = <<>> /\ q = <<>> /\ pendq = <<>> /\ cnt = Cnt0 /\ track = FALSE /\ lost = {} /\ fname = <<>>
 
 TraceNext ==
